@@ -197,7 +197,7 @@ def main():
     thorough = tier() == "thorough"
     n_total = 6000 if thorough else 1600
     cases = [{"seed": seed(), "idx": i, "long": (i % 10 == 0)} for i in range(n_total)]
-    res = pmap("vf.checks.c02:run_case", cases, cpu_budget=120)
+    res = pmap("vf.checks.c02:run_case", cases, cpu_budget=40)
     for c, r_ in zip(cases, res):
         if r_["status"] != "ok":
             if r_["status"] in ("crash", "hang"):
